@@ -119,7 +119,7 @@ func (p *prop) runModule(c core.Case, w *core.Worker, res *core.Result, r *rand.
 	m.MustWrite("_deps/dep/go.mod", "module "+depMod+"\n\ngo 1.18\n")
 	m.MustWrite("_deps/dep/x/rand/r.go", "package rand\n\ntype Thing struct{}\n")
 	m.MustWrite("_deps/dep/y/rand/r.go", "package rand\n\ntype Thing struct{}\n")
-	m.MustWrite("_deps/dep/x/model/m.go", "package model\n\ntype Thing struct{}\n")
+	m.MustWrite("_deps/dep/x/model/m.go", "package model\n\ntype Thing struct{}\n\ntype Box[T any] struct{ V T }\n\ntype Two[A any, B any] struct {\n\tA A\n\tB B\n}\n")
 	m.MustWrite("_deps/dep/y/model/m.go", "package model\n\ntype Thing struct{}\n")
 	// package-level tags differ per package on purpose: a tag of an earlier package must not enable (or
 	// parameterise) a generator in a later one; the run also passes non-nil Globals
@@ -197,6 +197,12 @@ func (p *prop) runModule(c core.Case, w *core.Worker, res *core.Result, r *rand.
 				imps = append(imps, s)
 			}
 		}
+		// the SAME instantiated generic type named in several packages of a run: with an argument of the package
+		// itself (unqualified there) and with p1's type as argument in every package (own in p1, foreign elsewhere)
+		imps = append(imps,
+			depMod+"/x/model.Box["+mod+"/"+d+".Shared1]",
+			depMod+"/x/model.Box["+mod+"/p1.Shared1]",
+			depMod+"/x/model.Two["+mod+"/p1.Shared2,"+depMod+"/x/model.Box["+mod+"/"+d+".Shared2]]")
 		state.Pkg[mod+"/"+d] = specgen.Behav{Mode: "stateful", Salt: "s", Imports: imps}
 	}
 	gens := []specgen.GenSpec{state, {Name: "analyze", Def: specgen.Behav{Mode: "analyze"}}, {Name: "proto", Proto: true}, {Name: "runtimedoc", Real: true}, {Name: "deepcopy", Real: true}}
